@@ -26,7 +26,20 @@ def main():
     open_pending = pending.register(ck)
     n = 12000 if ck.thorough else 1200
     profiles = ["weird", "mixed", "cpu", "pattern", "lut", "pattern", "weights", "cascade", "weird", "pattern", "elementwise", "pattern"]
-    outs = pipe_common.run_corpus(ck, n, profiles=profiles, want={"more_opts": True}, corpus_first=False)
+    own = None
+    if ck.replay_arg:
+        # replays of the regression corpus / the targeted families are compiled by their own workers
+        import json
+
+        import pipeline
+
+        rp = json.load(open(ck.replay_arg))
+        rp = rp.get("replay", rp)
+        prof = str(rp.get("profile", ""))
+        if prof.startswith(("c13reg:", "c13x:")):
+            pipeline.load_vela()
+            own = [c13_corpus.compile_one(prof[7:])] if prof.startswith("c13reg:") else [c13_gen.compile_one((rp["seed"], rp["index"]))]
+    outs = own if own is not None else pipe_common.run_corpus(ck, n, profiles=profiles, want={"more_opts": True}, corpus_first=False)
     if not ck.replay_arg:
         # deterministic reproducers of every repaired crash first: a regression is a plain VIOLATION
         # ... then the targeted families (operator neighbourhoods the general profiles rarely produce, see c13_gen.py)
